@@ -5,7 +5,9 @@ package main
 // unknown fields, repeated scalars, overlong varints and adversarial lengths are all expressible.
 
 import (
+	"bytes"
 	"encoding/binary"
+	"fmt"
 	"math/rand"
 )
 
@@ -680,6 +682,22 @@ func genWireValid(g *Gen, n int) {
 	for i := 0; i < n; i++ {
 		wild := g.R.Intn(4) == 0
 		emitSnap(map[bool]string{false: "random-wf", true: "random-wild"}[wild], randSnap(g.R, wild, i%10 == 0))
+	}
+	// highly compressible content (better than the 1:10 the loader's buffer sizing assumes):
+	// constant values, near-identical entries, a second DBI behind the compressible one
+	for _, vl := range []int{300, 4000, 20000} {
+		for _, ne := range []int{1, 12} {
+			if !g.Thorough() && vl == 20000 && ne == 12 {
+				continue
+			}
+			var es []wKV
+			for i := 0; i < ne; i++ {
+				es = append(es, wKV{[]byte(fmt.Sprintf("key-%04d", i)), bytes.Repeat([]byte{byte(0x41 + vl%7)}, vl), 1000 + uint64(i), 0})
+			}
+			s := wSnap{FV: 3, CV: 1, Meta: meta, DBIs: []wDBI{{Name: []byte("rep"), Entries: es}, {Name: []byte("tail"), Entries: []wKV{{[]byte("last"), []byte("entry"), 5, 0}}}}}
+			g.Emit("compressible", "prop.c07.roundtrip "+s.String())
+			g.Emit("compressible", "wire.snapshot "+hx(plainOpts(g.R).encSnap(s)))
+		}
 	}
 	if g.Thorough() {
 		// 2^21: three-byte/four-byte length varints; many entries
